@@ -43,6 +43,8 @@ def check(ctx: Ctx) -> None:
     from .c14 import READ_MODULES, r1 as c14_r1
     c14_r1(ctx, "C07.R8", [ctx.fn("garbage_collector.GarbageCollector.collect")], READ_MODULES + ("storage_backend", "s3_consistency"),
            "collector's inputs: every handler in a function GarbageCollector.collect reaches (outside the collector itself)", 10, 12)
+    from .c14 import parsers_keep_every_entry
+    parsers_keep_every_entry(ctx, "C07.R9")
 
 
 def _assigns(ctx: Ctx, f: FunctionInfo, h: ast.ExceptHandler, name: str, value: object) -> bool:
